@@ -33,6 +33,20 @@ CHECKS.update({
                 note='evaluator access paths (array element, parameter, field) not covered yet; FP havoc.',
                 ref='DESIGN.md §2 C06', tech=TECH_SAT),
 })
+CHECKS.update({
+    'C13': dict(text='Lexer totality as an inductive step: from any state, on any bytes, scanToken/skipWhitespace terminate inside the unwinding bound, read only '
+                     'inside an exactly-sized source buffer and return or raise exactly one Lexical diagnostic with a 1-based position.',
+                note='first byte of each window concrete per query (one per dispatch class quick, all 256 thorough), the others symbolic; parser/analyser/import totality not covered yet.',
+                ref='DESIGN.md §2 C13', tech=TECH_SAT),
+    'C15': dict(text='Lexer exactness as an inductive step: from ANY (line,column) one scanToken yields the source bytes at the cursor, positioned at the pre-state, and leaves '
+                     'counters describing the next byte; skipWhitespace skips exactly whitespace and // comments; keyword kinds <=> spellings. By induction every token of every source is exact.',
+                note='tokenize()\'s loop is tied in on paper + the empty-source query (a fully symbolic tokenize gives no verdict in 600 s); windows <= 4 bytes quick / 6 thorough. Found and fixed: newline inside string/char literals (8f62bbe).',
+                ref='DESIGN.md §2 C15', tech=TECH_SAT),
+    'C20': dict(text='Real updater helpers: compareSemVer/changeLabel over symbolic triples (sign, antisymmetry, transitivity, numeric order), hasExpired/maybePrintNotice over symbolic 64-bit clocks '
+                     '(notice iff strictly newer, parsable and 72 h passed; never two within 72 h), parseSemVer/hasLatest on 29 enumerated version shapes incl. huge components.',
+                note='version strings are enumerated, not symbolic; performSelfUpdate call site, parseChecksum, env switches, file/HTTP code outside. Found and fixed: stoi overflow escaping parseSemVer (21f8240).',
+                ref='DESIGN.md §2 C20', tech=TECH_SAT),
+})
 NA = {}
 def main():
     props = [json.loads(l) for l in open(os.path.join(here, 'properties.jsonl'))]
